@@ -1656,3 +1656,777 @@ Definition wit_budget_page_at (size : N) : page :=
           (s2b "foo") with
   | Ok p => p | _ => new_page end.
 Definition wit_budget_page : page := wit_budget_page_at 13.
+
+(* ====================== lift of offered_page_renders to Page.Render ====================== *)
+(* ---- templates: a placeholder mentioned once splits the instantiation ------------------ *)
+Definition tmentions (k : bytes) (items : list tpl_item) : bool :=
+  existsb (fun it => match it with TVar n => bytes_eqb n k | TLit _ => false end) items.
+
+Lemma tpl_exec_agree items v1 v2 :
+  (forall n, tmentions n items = true -> alookup n v1 = alookup n v2) -> tpl_exec items v1 = tpl_exec items v2.
+Proof.
+  induction items as [|[b|n] items IH]; intros H; [reflexivity| |].
+  - cbn [tpl_exec]. rewrite IH; [reflexivity|]. intros n Hn. apply H. cbn [tmentions existsb]. exact Hn.
+  - cbn [tpl_exec]. rewrite (H n) by (cbn [tmentions existsb]; rewrite bytes_eqb_refl; reflexivity).
+    rewrite IH; [reflexivity|]. intros n' Hn. apply H. unfold tmentions in *. cbn [existsb]. rewrite Hn. apply orb_true_r.
+Qed.
+
+Lemma tpl_exec_app_ok a b vals body :
+  tpl_exec (a ++ b) vals = Ok body <->
+  exists x y, tpl_exec a vals = Ok x /\ tpl_exec b vals = Ok y /\ body = x ++ y.
+Proof.
+  revert body. induction a as [|[l|n] a IH]; intros body.
+  - cbn [app tpl_exec]. split.
+    + intros H. exists [], body. repeat split. exact H.
+    + intros [x [y [Hx [Hy ->]]]]. inversion Hx; subst. exact Hy.
+  - cbn [app tpl_exec]. split.
+    + intros H. destruct (tpl_exec (a ++ b) vals) as [s|e|p] eqn:E; cbn [obind] in H; try discriminate.
+      inversion H; subst body. destruct (proj1 (IH s) eq_refl) as [x [y [Hx [Hy ->]]]].
+      exists (l ++ x), y. rewrite Hx. cbn [obind]. repeat split; [exact Hy|]. rewrite app_assoc. reflexivity.
+    + intros [x [y [Hx [Hy ->]]]]. destruct (tpl_exec a vals) as [s|e|p] eqn:E; cbn [obind] in Hx; try discriminate.
+      inversion Hx; subst x. rewrite (proj2 (IH (s ++ y))) by (exists s, y; repeat split; exact Hy).
+      cbn [obind]. rewrite app_assoc. reflexivity.
+  - cbn [app tpl_exec]. destruct (alookup n vals) as [v|]; [|split; [discriminate|intros [x [y [Hx _]]]; discriminate]].
+    split.
+    + intros H. destruct (tpl_exec (a ++ b) vals) as [s|e|p] eqn:E; cbn [obind] in H; try discriminate.
+      inversion H; subst body. destruct (proj1 (IH s) eq_refl) as [x [y [Hx [Hy ->]]]].
+      exists (v ++ x), y. rewrite Hx. cbn [obind]. repeat split; [exact Hy|]. rewrite app_assoc. reflexivity.
+    + intros [x [y [Hx [Hy ->]]]]. destruct (tpl_exec a vals) as [s|e|p] eqn:E; cbn [obind] in Hx; try discriminate.
+      inversion Hx; subst x. rewrite (proj2 (IH (s ++ y))) by (exists s, y; repeat split; exact Hy).
+      cbn [obind]. rewrite app_assoc. reflexivity.
+Qed.
+
+(* the template-length lemma: with the sink mentioned exactly once, the instantiation is
+   (text before) ++ (sink value) ++ (text after), the two texts not depending on the sink *)
+Lemma tpl_exec_single a k b vals body :
+  tpl_exec (a ++ TVar k :: b) vals = Ok body <->
+  exists xa x xb, tpl_exec a vals = Ok xa /\ alookup k vals = Some x /\ tpl_exec b vals = Ok xb
+                  /\ body = xa ++ x ++ xb.
+Proof.
+  rewrite tpl_exec_app_ok. cbn [tpl_exec]. split.
+  - intros [xa [y [Ha [Hy ->]]]]. destruct (alookup k vals) as [x|]; [|discriminate].
+    destruct (tpl_exec b vals) as [xb|e|p]; cbn [obind] in Hy; try discriminate. inversion Hy; subst y.
+    exists xa, x, xb. repeat split. exact Ha.
+  - intros [xa [x [xb [Ha [Hk [Hb ->]]]]]]. exists xa, (x ++ xb). rewrite Hk, Hb. cbn [obind]. repeat split. exact Ha.
+Qed.
+
+(* ---- GetAt on a map with unique keys ------------------------------------------------------ *)
+Lemma get_at_loop_absent sink crs idx vals :
+  ~ In sink (map fst vals) -> get_at_loop sink crs idx vals = Ok vals.
+Proof.
+  induction vals as [|[k v] vals IH]; intros H; [reflexivity|]. cbn [get_at_loop].
+  destruct (bytes_eqb sink k) eqn:E.
+  - apply bytes_eqb_eq in E. subst k. exfalso. apply H. left. reflexivity.
+  - rewrite IH by (intros Hin; apply H; right; exact Hin). reflexivity.
+Qed.
+
+Lemma alookup_In {V} k (l : list (bytes * V)) v : alookup k l = Some v -> In k (map fst l).
+Proof.
+  induction l as [|[k' v'] l IH]; [discriminate|]. cbn [alookup map fst].
+  destruct (bytes_eqb k k') eqn:E; [apply bytes_eqb_eq in E; left; congruence|]. intros H. right. auto.
+Qed.
+
+Lemma get_at_loop_ok sink crs idx vals v p :
+  NoDup (map fst vals) -> alookup sink vals = Some v -> sink_page v crs idx = Ok p ->
+  exists vals', get_at_loop sink crs idx vals = Ok vals'
+    /\ alookup sink vals' = Some p
+    /\ (forall k, k <> sink -> alookup k vals' = alookup k vals).
+Proof.
+  induction vals as [|[k0 v0] vals IH]; intros Hnd Hl Hp; [discriminate|].
+  cbn [map fst] in Hnd. inversion Hnd as [|? ? Hnin Hnd']; subst.
+  cbn [get_at_loop alookup] in *. destruct (bytes_eqb sink k0) eqn:E.
+  - apply bytes_eqb_eq in E. subst k0. inversion Hl; subst v0. rewrite Hp. cbn [obind].
+    rewrite get_at_loop_absent by exact Hnin. cbn [obind].
+    exists ((sink, p) :: vals). split; [reflexivity|]. split.
+    + cbn [alookup]. rewrite bytes_eqb_refl. reflexivity.
+    + intros k Hk. cbn [alookup]. destruct (bytes_eqb k sink) eqn:E2; [apply bytes_eqb_eq in E2; contradiction|reflexivity].
+  - destruct (IH Hnd' Hl Hp) as [vals' [Hg [Hs Ho]]]. rewrite Hg. cbn [obind].
+    exists ((k0, v0) :: vals'). split; [reflexivity|]. split.
+    + cbn [alookup]. rewrite E. exact Hs.
+    + intros k Hk. cbn [alookup]. destruct (bytes_eqb k k0); [reflexivity|apply Ho; exact Hk].
+Qed.
+
+Lemma aset_keys_present {V} k (v v0 : V) l : alookup k l = Some v0 -> map fst (aset k v l) = map fst l.
+Proof.
+  induction l as [|[k' v'] l IH]; [discriminate|]. cbn [alookup aset].
+  destruct (bytes_eqb k k') eqn:E.
+  - intros _. apply bytes_eqb_eq in E. subst. reflexivity.
+  - intros H. cbn [map fst]. rewrite IH by exact H. reflexivity.
+Qed.
+
+(* ---- split on a map with exactly one zero-size symbol --------------------------------------- *)
+Definition blank (k : bytes) (vals : alist) : alist :=
+  map (fun kv => if bytes_eqb (fst kv) k then (fst kv, []) else kv) vals.
+
+(* the decidable guard: unique keys, k is the one symbol with reserved size 0 *)
+Definition single_sink (c : cache) (k : bytes) (vals : alist) : Prop :=
+  NoDup (map fst vals)
+  /\ (forall k', In k' (map fst vals) ->
+        if bytes_eqb k' k then cache_reserved c k' = Ok 0
+        else exists sz, cache_reserved c k' = Ok sz /\ sz <> 0).
+
+Lemma blank_keys k vals : map fst (blank k vals) = map fst vals.
+Proof.
+  unfold blank. rewrite map_map. apply map_ext. intros [k' v']. cbn [fst].
+  destruct (bytes_eqb k' k); reflexivity.
+Qed.
+
+Lemma alookup_blank_sink k vals v : alookup k vals = Some v -> alookup k (blank k vals) = Some [].
+Proof.
+  induction vals as [|[k' v'] vals IH]; [discriminate|]. cbn [alookup blank map fst].
+  destruct (bytes_eqb k k') eqn:E.
+  - intros _. apply bytes_eqb_eq in E. subst k'. rewrite bytes_eqb_refl. cbn [alookup]. rewrite bytes_eqb_refl. reflexivity.
+  - intros H. destruct (bytes_eqb k' k) eqn:E2.
+    + apply bytes_eqb_eq in E2. subst. rewrite bytes_eqb_refl in E. discriminate.
+    + cbn [alookup]. rewrite E. apply IH. exact H.
+Qed.
+
+Lemma alookup_blank_other k vals k' : k' <> k -> alookup k' (blank k vals) = alookup k' vals.
+Proof.
+  intros Hne. induction vals as [|[k0 v0] vals IH]; [reflexivity|]. cbn [alookup blank map fst].
+  destruct (bytes_eqb k0 k) eqn:E.
+  - apply bytes_eqb_eq in E. subst k0. cbn [alookup].
+    destruct (bytes_eqb k' k) eqn:E2; [apply bytes_eqb_eq in E2; contradiction|exact IH].
+  - cbn [alookup]. destruct (bytes_eqb k' k0); [reflexivity|exact IH].
+Qed.
+
+Lemma split_loop_single c k vals : forall acc sink svs,
+  single_sink c k vals ->
+  page_split_loop c vals acc sink svs
+  = Ok (acc ++ blank k vals,
+        match alookup k vals with Some _ => k | None => sink end,
+        match alookup k vals with Some v => split_on nl v | None => svs end).
+Proof.
+  induction vals as [|[k0 v0] vals IH]; intros acc sink svs [Hnd Hres].
+  - cbn. rewrite app_nil_r. reflexivity.
+  - cbn [map fst] in Hnd. inversion Hnd as [|? ? Hnin Hnd']; subst.
+    assert (Hs' : single_sink c k vals).
+    { split; [exact Hnd'|]. intros k' Hin. apply Hres. right. exact Hin. }
+    pose proof (Hres k0 (or_introl eq_refl)) as H0.
+    cbn [page_split_loop alookup blank map fst].
+    destruct (bytes_eqb k0 k) eqn:E.
+    + apply bytes_eqb_eq in E. subst k0. rewrite H0, bytes_eqb_refl. cbn [N.eqb].
+      rewrite IH by exact Hs'.
+      assert (Hn : alookup k vals = None).
+      { destruct (alookup k vals) eqn:El; [|reflexivity]. exfalso. apply Hnin. eapply alookup_In. exact El. }
+      rewrite Hn. rewrite <- app_assoc. reflexivity.
+    + destruct H0 as [sz [Hr Hsz]]. rewrite Hr.
+      destruct (sz =? 0) eqn:Ez; [apply N.eqb_eq in Ez; contradiction|].
+      assert (E2 : bytes_eqb k k0 = false).
+      { destruct (bytes_eqb k k0) eqn:E2; [|reflexivity]. apply bytes_eqb_eq in E2. subst. rewrite bytes_eqb_refl in E. discriminate. }
+      rewrite E2. rewrite IH by exact Hs'. rewrite <- app_assoc. reflexivity.
+Qed.
+
+Lemma page_split_single c k vals v :
+  k <> [] -> single_sink c k vals -> alookup k vals = Some v ->
+  page_split c vals = Ok (blank k vals, k, split_on nl v).
+Proof.
+  intros Hk Hs Hl. unfold page_split. rewrite (split_loop_single c k vals [] [] [] Hs). rewrite Hl.
+  cbn [app]. destruct k; [congruence|reflexivity].
+Qed.
+Lemma menu_sizes_closed m :
+  b_next_avail (m_browse m) = true -> b_prev_avail (m_browse m) = true ->
+  len (b_next_sel (m_browse m)) + 1 + len (b_next_title (m_browse m)) < 4294967296 ->
+  len (b_prev_sel (m_browse m)) + 1 + len (b_prev_title (m_browse m)) < 4294967296 ->
+  menu_sizes m = Ok (0,
+                     len (b_next_sel (m_browse m)) + 1 + len (b_next_title (m_browse m)),
+                     len (b_prev_sel (m_browse m)) + 1 + len (b_prev_title (m_browse m)),
+                     w32 (len (b_next_sel (m_browse m)) + 1 + len (b_next_title (m_browse m))
+                          + (len (b_prev_sel (m_browse m)) + 1 + len (b_prev_title (m_browse m))))).
+Proof.
+  destruct m as [items b pc cn cp sk kp sp rs]. destruct b as [na ns nt pa ps pt].
+  cbn [m_browse b_next_avail b_prev_avail b_next_sel b_next_title b_prev_sel b_prev_title].
+  intros -> -> Hn Hp.
+  unfold menu_sizes. cbn -[w32 sub32 len].
+  change (len (@nil N)) with 0. change (0 <? 0) with false. cbn [app].
+  rewrite !len_app, !len_cons. change (w32 0) with 0.
+  rewrite (w32_small (len ns + (1 + len nt))) by lia. rewrite (w32_small (len ps + (1 + len pt))) by lia.
+  rewrite !sub32_small by lia. rewrite !N.sub_0_r.
+  replace (len ns + (1 + len nt)) with (len ns + 1 + len nt) by lia.
+  replace (len ps + (1 + len pt)) with (len ps + 1 + len pt) by lia. reflexivity.
+Qed.
+
+Lemma menu_sizes_browse m1 m2 : m_browse m1 = m_browse m2 -> menu_sizes m1 = menu_sizes m2.
+Proof. intros H. unfold menu_sizes. rewrite H. reflexivity. Qed.
+
+(* ---- the menu text: success from resolvable titles, and its length --------------------------- *)
+Lemma menu_lines_nonempty tf sep items lines :
+  sep <> [] -> menu_lines tf sep items = Some lines -> Forall (fun l => l <> []) lines.
+Proof.
+  intros Hsep. revert lines. induction items as [|[sel t] items IH]; intros lines H.
+  - inversion H. constructor.
+  - cbn [menu_lines] in H. destruct (tf t) as [x|e|p]; try discriminate.
+    destruct (menu_lines tf sep items) as [l|]; [|discriminate]. inversion H; subst.
+    constructor; [|apply IH; reflexivity].
+    intros E. apply app_eq_nil in E as [_ E]. apply app_eq_nil in E as [E _]. contradiction.
+Qed.
+
+Lemma menu_loop_of_lines tf sep : sep <> [] -> forall items lines acc,
+  menu_lines tf sep items = Some lines ->
+  menu_loop tf sep items acc
+  = (Ok (match acc with [] => join_with [nl] lines | _ => acc ++ ltail lines end), []).
+Proof.
+  intros Hsep. induction items as [|[sel t] items IH]; intros lines acc H.
+  - inversion H; subst. cbn [menu_loop]. destruct acc; [reflexivity|]. unfold ltail. cbn. rewrite app_nil_r. reflexivity.
+  - cbn [menu_lines] in H. destruct (tf t) as [x|e|p] eqn:Et; try discriminate.
+    destruct (menu_lines tf sep items) as [l|] eqn:El; [|discriminate]. inversion H; subst lines; clear H.
+    cbn [menu_loop]. rewrite Et. rewrite (IH l _ eq_refl).
+    destruct acc as [|a acc].
+    + change (0 <? len (@nil N)) with false. cbn [app]. rewrite join_cons_tail.
+      destruct (sel ++ sep ++ x) eqn:E; [|reflexivity].
+      exfalso. apply app_eq_nil in E as [_ E]. apply app_eq_nil in E as [E _]. contradiction.
+    + assert (Hlt : (0 <? len (a :: acc)) = true) by (rewrite len_cons; lia).
+      rewrite Hlt. cbn [app]. unfold ltail. cbn [map List.concat app].
+      rewrite <- !app_assoc. cbn [app]. rewrite <- !app_assoc. reflexivity.
+Qed.
+
+Lemma len_join_nl p : p <> [] -> len (join_with [nl] p) + 1 = rows_size p.
+Proof. intros H. rewrite (len_join_with_sep [nl] [0]) by reflexivity. apply len_pjoin. exact H. Qed.
+
+Lemma len_opt_menu_join ls :
+  Forall (fun l => l <> []) ls -> len (opt_menu (join_with [nl] ls)) = rows_size ls.
+Proof.
+  intros H. destruct ls as [|x l]; [reflexivity|].
+  inversion H as [|? ? Hx _]; subst.
+  pose proof (len_join_nl (x :: l) ltac:(discriminate)) as Hl.
+  assert (Hpos : 0 < len (join_with [nl] (x :: l))).
+  { rewrite join_cons_tail, len_app. destruct x; [congruence|]. rewrite len_cons. lia. }
+  unfold opt_menu. destruct (0 <? len (join_with [nl] (x :: l))) eqn:E; [|lia].
+  rewrite len_cons. lia.
+Qed.
+
+(* ---- prepare, step by step, on a page with one symbol sink ----------------------------------- *)
+Lemma prepare_single c gt gm pg sym idx z0 m k nsv svs s pg3 z3 R m3 ms r n cs :
+  p_sizer pg = Some z0 -> p_menu pg = Some m -> m_sink m = false -> k <> [] ->
+  page_split c (p_map pg) = Ok (nsv, k, svs) ->
+  page_render_inner gt gm (page_set_sizer pg (Some (sizer_add_cursor z0 0))) sym nsv 0 = (Ok s, pg3) ->
+  p_sizer pg3 = Some z3 -> sizer_check z3 s = (R, true) ->
+  p_menu pg3 = Some m3 -> menu_sizes m3 = Ok ms ->
+  join_sink svs R ms (z_crsrs z3) = (Ok (r, n), cs) ->
+  page_prepare c gt gm pg sym idx
+  = (Ok (aset k r nsv),
+     page_set_menu (page_set_sizer pg3 (Some (sizer_set_crsrs z3 cs))) (Some (menu_with_page_count m3 n))).
+Proof.
+  intros Hz0 Hm Hsink Hk Hsplit Hpre Hz3 Hchk Hm3 Hms Hj.
+  unfold page_prepare. rewrite Hz0, Hsplit. cbv zeta. rewrite Hm, Hsink.
+  rewrite Hz0. cbn [option_map]. rewrite Hpre, Hz3, Hchk. cbn [negb]. rewrite Hm3, Hms, Hj.
+  assert (Hal : match k with [] => true | _ :: _ => false end = false) by (destruct k; congruence).
+  rewrite Hal. unfold prep_write.
+  change (p_menu (page_set_sizer pg3 (Some (sizer_set_crsrs z3 cs)))) with (p_menu pg3).
+  rewrite Hm3. reflexivity.
+Qed.
+
+Definition browse_lines (b : browse) (sep : bytes) (nx pv : bool) : list bytes :=
+  (if nx then [b_next_sel b ++ sep ++ b_next_title b] else [])
+  ++ (if pv then [b_prev_sel b ++ sep ++ b_prev_title b] else []).
+
+(* a paged menu whose titles resolve renders, for every index below the page count *)
+Lemma menu_render_paged_ok gm m i lines :
+  b_next_avail (m_browse m) = true -> b_prev_avail (m_browse m) = true ->
+  0 < m_page_count m -> i < m_page_count m -> m_sep m <> [] ->
+  menu_lines (title_for gm m) (m_sep m) (m_items m) = Some lines ->
+  title_for gm m (b_next_title (m_browse m)) = Ok (b_next_title (m_browse m)) ->
+  title_for gm m (b_prev_title (m_browse m)) = Ok (b_prev_title (m_browse m)) ->
+  exists m', menu_render_st gm m i
+    = (Ok (join_with [nl] (lines ++ browse_lines (m_browse m) (m_sep m) (i + 1 <? m_page_count m) (0 <? i))), m').
+Proof.
+  intros Hn Hp Hpc Hi Hsep Hl Hnt Hpt. unfold menu_render_st.
+  destruct (menu_apply_page m i) as [m1|e|p] eqn:Ea.
+  - destruct (menu_apply_page_browse m i m1 Hn Hp Hpc Ea) as [_ [_ [_ [Hitems [_ [_ [Hs [_ [Hrs _]]]]]]]]].
+    rewrite Hs, Hrs. fold (title_for gm m). rewrite Hitems.
+    assert (Hbl : menu_lines (title_for gm m) (m_sep m)
+              ((if i + 1 <? m_page_count m then [(b_next_sel (m_browse m), b_next_title (m_browse m))] else [])
+               ++ (if 0 <? i then [(b_prev_sel (m_browse m), b_prev_title (m_browse m))] else []))
+            = Some (browse_lines (m_browse m) (m_sep m) (i + 1 <? m_page_count m) (0 <? i))).
+    { unfold browse_lines. apply menu_lines_app.
+      - destruct (i + 1 <? m_page_count m); [|reflexivity]. cbn [menu_lines]. rewrite Hnt. reflexivity.
+      - destruct (0 <? i); [|reflexivity]. cbn [menu_lines]. rewrite Hpt. reflexivity. }
+    rewrite (menu_loop_of_lines (title_for gm m) (m_sep m) Hsep _ _ [] (menu_lines_app _ _ _ _ _ _ Hl Hbl)).
+    eexists. reflexivity.
+  - exfalso. unfold menu_apply_page in Ea. destruct (m_page_count m =? 0) eqn:E0; [lia|].
+    destruct (m_page_count m <=? i) eqn:E1; [lia|discriminate].
+  - exfalso. unfold menu_apply_page in Ea. destruct (m_page_count m =? 0); [destruct (0 <? i); discriminate|].
+    destruct (m_page_count m <=? i); discriminate.
+Qed.
+
+Lemma rows_size_browse_lines b nx pv :
+  rows_size (browse_lines b default_sep nx pv)
+  = (if nx then len (b_next_sel b) + 1 + len (b_next_title b) + 1 else 0)
+    + (if pv then len (b_prev_sel b) + 1 + len (b_prev_title b) + 1 else 0).
+Proof.
+  unfold browse_lines. rewrite rows_size_app.
+  destruct nx, pv; cbn [rows_size fold_right]; rewrite ?len_app; change (len default_sep) with 1; lia.
+Qed.
+
+Lemma sizer_get_at_sink z vals idx :
+  z_sink z <> [] -> sizer_get_at z vals idx = get_at_loop (z_sink z) (z_crsrs z) idx vals.
+Proof. intros H. unfold sizer_get_at. destruct (z_sink z); [congruence|reflexivity]. Qed.
+
+Lemma split_on_nonempty sep l : split_on sep l <> [].
+Proof.
+  induction l as [|x l IH]; [discriminate|]. cbn [split_on]. destruct (x =? sep); [discriminate|].
+  destruct (split_on sep l); [congruence|discriminate].
+Qed.
+
+(* what Menu.Sizes computes for a browse configuration with both entries (closed form) *)
+(* lia on a goal that already holds every fact it needs: the context of the next proof is large
+   and zify is very slow on it *)
+Ltac clia := repeat match goal with H : _ |- _ => clear H end; lia.
+
+Definition browse_sizes (b : browse) : N * N * N * N :=
+  (0, len (b_next_sel b) + 1 + len (b_next_title b), len (b_prev_sel b) + 1 + len (b_prev_title b),
+   w32 (len (b_next_sel b) + 1 + len (b_next_title b) + (len (b_prev_sel b) + 1 + len (b_prev_title b)))).
+
+(* the final render of page i, given what prepare produced: it succeeds as soon as the pieces
+   add up to at most outputSize *)
+Lemma final_render_ok gt gm pg6 sym vals i z6 m6 k r X src a b xa xb lines :
+  p_sizer pg6 = Some z6 -> z_sink z6 = k -> k <> [] -> 0 < z_out z6 -> z_out z6 < 4294967296 ->
+  p_menu pg6 = Some m6 ->
+  b_next_avail (m_browse m6) = true -> b_prev_avail (m_browse m6) = true -> m_sep m6 = default_sep ->
+  title_for gm m6 (b_next_title (m_browse m6)) = Ok (b_next_title (m_browse m6)) ->
+  title_for gm m6 (b_prev_title (m_browse m6)) = Ok (b_prev_title (m_browse m6)) ->
+  0 < m_page_count m6 -> i < m_page_count m6 ->
+  menu_lines (title_for gm m6) (m_sep m6) (m_items m6) = Some lines ->
+  NoDup (map fst vals) -> alookup k vals = Some r -> sink_page r (z_crsrs z6) i = Ok X ->
+  gt sym = Ok src -> tpl_parse (tpl_source (p_err pg6) (p_extra pg6) src) = Some (a ++ TVar k :: b) ->
+  (forall w, (forall nm, nm <> k -> alookup nm w = alookup nm vals) -> tpl_exec a w = Ok xa /\ tpl_exec b w = Ok xb) ->
+  len xa + len X + len xb + rows_size lines
+    + rows_size (browse_lines (m_browse m6) default_sep (i + 1 <? m_page_count m6) (0 <? i)) <= z_out z6 ->
+  exists m7,
+    menu_render_st gm m6 i
+      = (Ok (join_with [nl] (lines ++ browse_lines (m_browse m6) default_sep (i + 1 <? m_page_count m6) (0 <? i))), m7)
+    /\ page_render_inner gt gm pg6 sym vals i
+      = (Ok ((xa ++ X ++ xb)
+             ++ opt_menu (join_with [nl] (lines ++ browse_lines (m_browse m6) default_sep (i + 1 <? m_page_count m6) (0 <? i)))),
+         page_set_menu pg6 (Some m7)).
+Proof.
+  intros Hsz6 Hzs Hk Hout Hout32 Hmn6 Hna Hpa Hsep Hnt Hpt Hpc Hi Hlines Hndv Hlk Hsp Hgt Hparse Hexab Hfit.
+  assert (Hsepne : m_sep m6 <> []) by (rewrite Hsep; discriminate).
+  pose proof (menu_lines_nonempty _ _ _ _ Hsepne Hlines) as Hlne.
+  destruct (get_at_loop_ok k (z_crsrs z6) i vals r X Hndv Hlk Hsp) as [valsi [Hgi [Hki Hoi]]].
+  destruct (Hexab valsi Hoi) as [Hxa Hxb].
+  assert (Hexec : tpl_exec (a ++ TVar k :: b) valsi = Ok (xa ++ X ++ xb)).
+  { apply (proj2 (tpl_exec_single a k b valsi (xa ++ X ++ xb))). exists xa, X, xb. repeat split; assumption. }
+  destruct (menu_render_paged_ok gm m6 i lines Hna Hpa Hpc Hi Hsepne Hlines Hnt Hpt) as [m7 Hr7].
+  rewrite Hsep in Hr7.
+  set (bl := browse_lines (m_browse m6) default_sep (i + 1 <? m_page_count m6) (0 <? i)) in *.
+  exists m7. split; [exact Hr7|].
+  unfold page_render_inner, render_template.
+  rewrite Hgt. cbn [obind]. rewrite Hparse, Hsz6.
+  rewrite sizer_get_at_sink by (rewrite Hzs; exact Hk).
+  rewrite Hzs, Hgi. cbn [obind]. rewrite Hexec.
+  rewrite Hmn6, Hr7.
+  change (p_sizer (page_set_menu pg6 (Some m7))) with (p_sizer pg6). rewrite Hsz6.
+  fold (opt_menu (join_with [nl] (lines ++ bl))).
+  set (out := (xa ++ X ++ xb) ++ opt_menu (join_with [nl] (lines ++ bl))).
+  assert (Hbne : Forall (fun l => l <> []) (lines ++ bl)).
+  { apply Forall_app. split; [exact Hlne|]. unfold bl, browse_lines.
+    apply Forall_app. split; [destruct (i + 1 <? m_page_count m6)|destruct (0 <? i)]; constructor; try constructor;
+      intros E; apply app_eq_nil in E as [_ E]; discriminate. }
+  assert (Hlo : len out = len xa + len X + len xb + rows_size lines + rows_size bl).
+  { unfold out. rewrite !len_app, len_opt_menu_join by exact Hbne. rewrite rows_size_app. clia. }
+  assert (Hle : len out <= z_out z6) by (revert Hlo Hfit; clia).
+  assert (Hck : snd (sizer_check z6 out) = true).
+  { unfold sizer_check. rewrite w32_small by (revert Hle Hout32; clia).
+    destruct (0 <? z_out z6) eqn:E1; [|revert E1; generalize Hout; clia].
+    destruct (z_out z6 <? len out) eqn:E2; [revert E2; generalize Hle; clia|reflexivity]. }
+  rewrite Hck. reflexivity.
+Qed.
+
+Lemma page_render_exact c gt gm pg sym z0 m k v src a b s pg3 :
+  (* the page as the VM builds it: sizer attached before the Map, fresh cursors, ordinary menu *)
+  p_sizer pg = Some z0 -> z_crsrs z0 = [] -> z_sink z0 = k -> 0 < z_out z0 -> z_out z0 < 4294967296 ->
+  p_menu pg = Some m -> m_sink m = false -> m_keep m = true -> m_page_count m = 0 ->
+  b_next_avail (m_browse m) = true -> b_prev_avail (m_browse m) = true ->
+  (* guard excluding K-C02-labelsize: default separator, browse labels resolve to themselves *)
+  m_sep m = default_sep ->
+  title_for gm m (b_next_title (m_browse m)) = Ok (b_next_title (m_browse m)) ->
+  title_for gm m (b_prev_title (m_browse m)) = Ok (b_prev_title (m_browse m)) ->
+  (* exactly one sink symbol *)
+  k <> [] -> single_sink c k (p_map pg) -> alookup k (p_map pg) = Some v ->
+  (* a template of the fragment that mentions the sink exactly once *)
+  (forall x, is_panic (gt x) = false) ->
+  gt sym = Ok src -> tpl_parse (tpl_source (p_err pg) (p_extra pg) src) = Some (a ++ TVar k :: b) ->
+  tmentions k a = false -> tmentions k b = false ->
+  (* the pre-render without the sink, from which the budget is computed *)
+  page_render_inner gt gm (page_set_sizer pg (Some (sizer_add_cursor z0 0))) sym (blank k (p_map pg)) 0 = (Ok s, pg3) ->
+  len s < 4294967296 ->
+  rows_ok (split_on nl v) = true -> rows_size (split_on nl v) < 4294967296 -> len (split_on nl v) < 65536 ->
+  budget_ok (split_on nl v) (z_out z0 - len s) (browse_sizes (m_browse m)) = true ->
+  exists n r cs (pages : list (list bytes)) xa xb lines,
+    join_sink (split_on nl v) (z_out z0 - len s) (browse_sizes (m_browse m)) [0] = (Ok (r, n), cs)
+    /\ List.concat pages = split_on nl v /\ len pages = n /\ 0 < n
+    (* xa, xb: the template text around the sink, instantiated with the FULL mapped values *)
+    /\ (forall w, (forall nm, nm <> k -> alookup nm w = alookup nm (p_map pg)) ->
+          tpl_exec a w = Ok xa /\ tpl_exec b w = Ok xb)
+    /\ menu_lines (title_for gm m) (m_sep m) (m_items m) = Some lines
+    (* page i is exactly: text, the WHOLE rows of block i, text, the complete menu with its browse lines *)
+    /\ (forall i p, nth_error pages i = Some p ->
+          exists pg', page_render c gt gm pg sym (N.of_nat i)
+            = (Ok ((xa ++ join_with [nl] p ++ xb)
+                   ++ opt_menu (join_with [nl] (lines ++ browse_lines (m_browse m) default_sep
+                                                           (N.of_nat i + 1 <? n) (0 <? N.of_nat i)))), pg'))
+    /\ (forall i, n <= i -> exists e, fst (page_render c gt gm pg sym i) = Err e).
+Proof.
+  intros Hz0 Hcrs Hzs Hout Hout32 Hm Hsink Hkeep Hpc Hna Hpa Hsep Hnt Hpt Hk Hsingle Hlk Hgtp Hgt Hparse Hma Hmb
+         Hpre Hslen Hrok Hrsz Hrlen Hbud.
+  set (nsv := blank k (p_map pg)) in *. set (vs := split_on nl v) in *.
+  set (z2 := sizer_add_cursor z0 0) in *.
+  assert (Hsepne : m_sep m <> []) by (rewrite Hsep; discriminate).
+  pose proof (page_split_single c k (p_map pg) v Hk Hsingle Hlk) as Hsplit. fold nsv vs in Hsplit.
+  (* facts about the pre-render *)
+  destruct (inner_shape _ _ _ _ _ _ _ _ Hpre) as [src' [items [vals0 [body0 [mtext0 [Hg [Hparse0 [Hv0 [He0 [Hs Hm0]]]]]]]]]].
+  cbn [p_err p_extra p_sizer p_menu page_set_sizer] in Hparse0, Hv0, Hm0.
+  rewrite Hgt in Hg. injection Hg as <-. rewrite Hparse in Hparse0. injection Hparse0 as <-.
+  rewrite Hm in Hm0.
+  pose proof (inner_err_extra gt gm (page_set_sizer pg (Some z2)) sym nsv 0) as Hi. rewrite Hpre in Hi. cbn [snd] in Hi.
+  cbn [p_err p_extra p_map p_sizer page_set_sizer] in Hi. destruct Hi as [Hie [Hix [Him His]]].
+  destruct (inner_menu _ _ _ _ _ _ _ _ m Hpre Hm) as [txt [m3 [Er Hm3]]].
+  rewrite Er in Hm0. cbn [fst] in Hm0. injection Hm0 as ->.
+  destruct (menu_render_st_static gm m 0 mtext0 m3 Er) as [[Hb3 [Hs3 [Hk3 [Hrs3 [Hsk3 Hpc3]]]]] Hit3].
+  specialize (Hit3 Hkeep).
+  destruct (menu_render_text0 gm m 0 mtext0 m3 Hpc Hsepne Er) as [_ [lines [Hlines Hmt]]].
+  pose proof (menu_lines_nonempty _ _ _ _ Hsepne Hlines) as Hlne.
+  assert (Hzs2 : z_sink z2 = k) by exact Hzs.
+  assert (Hzs2ne : z_sink z2 <> []) by (rewrite Hzs2; exact Hk).
+  assert (Hnd : NoDup (map fst nsv)) by (unfold nsv; rewrite blank_keys; apply Hsingle).
+  assert (Hknsv : alookup k nsv = Some []) by (eapply alookup_blank_sink; exact Hlk).
+  (* values of the pre-render: the sink is empty *)
+  rewrite sizer_get_at_sink in Hv0 by exact Hzs2ne. rewrite Hzs2 in Hv0.
+  assert (Hcrs2 : z_crsrs z2 = [0]) by (unfold z2; cbn [z_crsrs sizer_add_cursor]; rewrite Hcrs; reflexivity).
+  rewrite Hcrs2 in Hv0.
+  destruct (get_at_loop_ok k [0] 0 nsv [] [] Hnd Hknsv eq_refl) as [vals0' [Hg0 [Hk0 Ho0]]].
+  rewrite Hg0 in Hv0. injection Hv0 as <-.
+  destruct (proj1 (tpl_exec_single a k b vals0' body0) He0) as [xa [x0 [xb [Hxa [Hx0 [Hxb Hbody0]]]]]].
+  rewrite Hk0 in Hx0. injection Hx0 as <-. cbn [app] in Hbody0.
+  assert (Hslen2 : len s = len xa + len xb + rows_size lines).
+  { rewrite Hs, Hbody0, Hmt, !len_app, len_opt_menu_join by exact Hlne. clia. }
+  (* the sizer's check and the budget *)
+  assert (Hfit : len s <= z_out z0).
+  { eapply (inner_fits gt gm (page_set_sizer pg (Some z2)) sym nsv 0 s pg3 z2); [reflexivity|exact Hout|exact Hslen|exact Hpre]. }
+  assert (Hchk : sizer_check z2 s = (z_out z0 - len s, true)).
+  { unfold sizer_check. rewrite w32_small by exact Hslen. change (z_out z2) with (z_out z0).
+    destruct (0 <? z_out z0) eqn:E1; [|revert E1; generalize Hout; clia].
+    destruct (z_out z0 <? len s) eqn:E2; [revert E2; generalize Hfit; clia|reflexivity]. }
+  set (R := z_out z0 - len s) in *.
+  set (ms := browse_sizes (m_browse m)) in *.
+  pose proof Hbud as Hbud'. unfold budget_ok in Hbud'. apply andb_true_iff in Hbud' as [Hb1 Hb2].
+  assert (Hms : menu_sizes m3 = Ok ms).
+  { rewrite (menu_sizes_browse m3 m Hb3). apply menu_sizes_closed; try assumption;
+      unfold ms, browse_sizes, ms_next, ms_prev in Hb1; revert Hb1 Hb2; clia. }
+  destruct (join_sink_budget vs R ms (split_on_nonempty nl v) Hrok Hrsz Hrlen Hbud)
+    as [r [n [cs [pages [Hj [Hcat [Hlp Hpages]]]]]]].
+  assert (Hnpos : 0 < n).
+  { destruct pages as [|p0 pages]; [cbn in Hcat; exfalso; apply (split_on_nonempty nl v); symmetry; exact Hcat|].
+    rewrite <- Hlp, len_cons. clia. }
+  pose proof Hj as Hj0. rewrite <- Hcrs2 in Hj.
+  pose proof (fun idx => prepare_single c gt gm pg sym idx z0 m k nsv vs s pg3 z2 R m3 ms r n cs
+                Hz0 Hm Hsink Hk Hsplit Hpre His Hchk Hm3 Hms Hj) as Hprep.
+  set (pg6 := page_set_menu (page_set_sizer pg3 (Some (sizer_set_crsrs z2 cs))) (Some (menu_with_page_count m3 n))) in *.
+  assert (Hxab : forall w, (forall nm, nm <> k -> alookup nm w = alookup nm (p_map pg)) ->
+            tpl_exec a w = Ok xa /\ tpl_exec b w = Ok xb).
+  { intros w Hw.
+    assert (Hagree : forall items', tmentions k items' = false -> tpl_exec items' w = tpl_exec items' vals0').
+    { intros items' Hmi. apply tpl_exec_agree. intros nm Hnm.
+      assert (Hne : nm <> k) by (intros ->; congruence).
+      rewrite (Hw nm Hne), (Ho0 nm Hne). unfold nsv. symmetry. apply alookup_blank_other. exact Hne. }
+    rewrite (Hagree a Hma), (Hagree b Hmb). split; assumption. }
+  exists n, r, cs, pages, xa, xb, lines.
+  split; [exact Hj0|]. split; [exact Hcat|]. split; [exact Hlp|]. split; [exact Hnpos|].
+  split; [exact Hxab|]. split; [exact Hlines|]. split.
+  - intros i0 p Enth. set (i := N.of_nat i0). unfold page_render. rewrite Hprep.
+    destruct (Hpages _ _ Enth) as [Hsp Hfits]. fold i in Hsp, Hfits.
+    assert (Hi : i < n).
+    { assert (Hsome : nth_error pages i0 <> None) by congruence. apply nth_error_Some in Hsome.
+      unfold len in Hlp. unfold i. revert Hsome Hlp. clia. }
+    set (X := join_with [nl] p) in *.
+    set (vals := aset k r nsv).
+    assert (Hndv : NoDup (map fst vals)) by (unfold vals; rewrite (aset_keys_present k r [] nsv Hknsv); exact Hnd).
+    set (m6 := menu_with_page_count m3 n).
+    assert (Htf6 : title_for gm m6 = title_for gm m) by (unfold title_for, m6; cbn [m_has_rs menu_with_page_count]; rewrite Hrs3; reflexivity).
+    destruct (final_render_ok gt gm pg6 sym vals i (sizer_set_crsrs z2 cs) m6 k r X src a b xa xb lines) as [m7 [_ Hfin]];
+      [..|rewrite Hfin; unfold m6; cbn [m_browse m_page_count menu_with_page_count]; rewrite Hb3; eexists; reflexivity];
+      try reflexivity; try assumption;
+      unfold m6; cbn [m_browse m_page_count m_sep m_items menu_with_page_count z_out z_sink z_crsrs sizer_set_crsrs]; fold m6;
+      rewrite ?Hb3, ?Hs3, ?Hit3, ?Htf6; try assumption.
+    + apply alookup_aset_same.
+    + unfold pg6. cbn [p_err p_extra page_set_menu page_set_sizer]. rewrite Hie, Hix. exact Hparse.
+    + intros w Hw. apply Hxab. intros nm Hne. rewrite (Hw nm Hne). unfold vals.
+      rewrite alookup_aset_other by exact Hne. unfold nsv. apply alookup_blank_other. exact Hne.
+    + rewrite rows_size_browse_lines. unfold R in Hfits. unfold nav, ms, browse_sizes, ms_next, ms_prev in Hfits.
+      change (z_out z2) with (z_out z0).
+      revert Hfits Hslen2 Hfit. destruct (i + 1 <? n), (0 <? i); clia.
+  - intros i Hi. apply (page_render_past_end c gt gm pg sym i (aset k r nsv) pg6 (menu_with_page_count m3 n));
+      [exact Hgtp|apply Hprep|reflexivity|cbn [m_page_count menu_with_page_count]; exact Hi|revert Hi; generalize Hnpos; clia].
+Qed.
+
+(* the statement as asked: every index below n renders *)
+Lemma page_offered_renders c gt gm pg sym z0 m k v src a b s pg3 :
+  p_sizer pg = Some z0 -> z_crsrs z0 = [] -> z_sink z0 = k -> 0 < z_out z0 -> z_out z0 < 4294967296 ->
+  p_menu pg = Some m -> m_sink m = false -> m_keep m = true -> m_page_count m = 0 ->
+  b_next_avail (m_browse m) = true -> b_prev_avail (m_browse m) = true ->
+  m_sep m = default_sep ->
+  title_for gm m (b_next_title (m_browse m)) = Ok (b_next_title (m_browse m)) ->
+  title_for gm m (b_prev_title (m_browse m)) = Ok (b_prev_title (m_browse m)) ->
+  k <> [] -> single_sink c k (p_map pg) -> alookup k (p_map pg) = Some v ->
+  (forall x, is_panic (gt x) = false) ->
+  gt sym = Ok src -> tpl_parse (tpl_source (p_err pg) (p_extra pg) src) = Some (a ++ TVar k :: b) ->
+  tmentions k a = false -> tmentions k b = false ->
+  page_render_inner gt gm (page_set_sizer pg (Some (sizer_add_cursor z0 0))) sym (blank k (p_map pg)) 0 = (Ok s, pg3) ->
+  len s < 4294967296 ->
+  rows_ok (split_on nl v) = true -> rows_size (split_on nl v) < 4294967296 -> len (split_on nl v) < 65536 ->
+  budget_ok (split_on nl v) (z_out z0 - len s) (browse_sizes (m_browse m)) = true ->
+  exists n r cs,
+    join_sink (split_on nl v) (z_out z0 - len s) (browse_sizes (m_browse m)) [0] = (Ok (r, n), cs)
+    /\ 0 < n
+    /\ (forall i, i < n -> exists out pg', page_render c gt gm pg sym i = (Ok out, pg'))
+    /\ (forall i, n <= i -> exists e, fst (page_render c gt gm pg sym i) = Err e).
+Proof.
+  intros H1 H2 H3 H4 H5 H6 H7 H8 H9 H10 H11 H12 H13 H14 H15 H16 H17 H18 H19 H20 H21 H22 H23 H24 H25 H26 H27 H28.
+  destruct (page_render_exact c gt gm pg sym z0 m k v src a b s pg3 H1 H2 H3 H4 H5 H6 H7 H8 H9 H10 H11 H12 H13 H14
+              H15 H16 H17 H18 H19 H20 H21 H22 H23 H24 H25 H26 H27 H28)
+    as [n [r [cs [pages [xa [xb [lines [Hj [_ [Hlp [Hn [_ [_ [Hok Herr]]]]]]]]]]]]]].
+  exists n, r, cs. split; [exact Hj|]. split; [exact Hn|]. split; [|exact Herr].
+  intros i Hi. destruct (nth_error pages (N.to_nat i)) as [p|] eqn:En.
+  - destruct (Hok _ _ En) as [pg' Hp]. rewrite N2Nat.id in Hp. eexists. exists pg'. exact Hp.
+  - apply nth_error_None in En. unfold len in Hlp. revert En Hlp Hi. clia.
+Qed.
+
+(* ---- the menu as sink (MSINK) ------------------------------------------------------------------ *)
+Lemma menu_loop_ok_rest tf sep items : forall acc r rest, menu_loop tf sep items acc = (Ok r, rest) -> rest = [].
+Proof.
+  induction items as [|[sel t] items IH]; intros acc r rest H.
+  - cbn in H. inversion H. reflexivity.
+  - cbn [menu_loop] in H. destruct (tf t); try (inversion H; fail). eapply IH. exact H.
+Qed.
+
+Lemma menu_render_st_dispose gm m idx txt m' :
+  menu_render_st gm m idx = (Ok txt, m') -> m_keep m = false -> m_items m' = [].
+Proof.
+  unfold menu_render_st. destruct (menu_apply_page m idx) as [m1|e|p] eqn:Ea; try discriminate.
+  destruct (menu_apply_page_static m idx m1 Ea) as [_ [_ [Hk _]]].
+  destruct (menu_loop (if m_has_rs m1 then gm else fun t => Ok t) (m_sep m1) (m_items m1) []) as [[r|e|p] rest] eqn:El;
+    try discriminate.
+  intros H Hkeep. inversion H; subst. cbn [set_items m_items]. rewrite Hk, Hkeep.
+  eapply menu_loop_ok_rest. exact El.
+Qed.
+
+Definition no_sink (c : cache) (vals : alist) : Prop :=
+  forall k', In k' (map fst vals) -> exists sz, cache_reserved c k' = Ok sz /\ sz <> 0.
+
+Lemma split_loop_nosink c vals : forall acc sink svs,
+  no_sink c vals -> page_split_loop c vals acc sink svs = Ok (acc ++ vals, sink, svs).
+Proof.
+  induction vals as [|[k0 v0] vals IH]; intros acc sink svs H.
+  - cbn. rewrite app_nil_r. reflexivity.
+  - cbn [page_split_loop]. destruct (H k0 (or_introl eq_refl)) as [sz [Hr Hsz]]. rewrite Hr.
+    destruct (sz =? 0) eqn:E; [apply N.eqb_eq in E; contradiction|].
+    rewrite IH by (intros k' Hin; apply H; right; exact Hin). rewrite <- app_assoc. reflexivity.
+Qed.
+
+Lemma page_split_nosink c vals : no_sink c vals -> page_split c vals = Ok (vals, [], []).
+Proof. intros H. unfold page_split. rewrite split_loop_nosink by exact H. reflexivity. Qed.
+
+Lemma In_aset_keys {V} x k (v : V) l : In x (map fst (aset k v l)) -> x = k \/ In x (map fst l).
+Proof.
+  induction l as [|[k' v'] l IH]; cbn [aset map fst].
+  - intros [H|[]]. left. symmetry. exact H.
+  - destruct (bytes_eqb k k') eqn:E; cbn [map fst].
+    + apply bytes_eqb_eq in E. subst k'. intros [H|H]; [left; symmetry; exact H|right; right; exact H].
+    + intros [H|H]; [right; left; exact H|]. destruct (IH H) as [H1|H1]; [left; exact H1|right; right; exact H1].
+Qed.
+
+Lemma NoDup_aset {V} k (v : V) l : NoDup (map fst l) -> NoDup (map fst (aset k v l)).
+Proof.
+  induction l as [|[k' v'] l IH]; intros H; cbn [aset map fst].
+  - constructor; [intros []|constructor].
+  - cbn [map fst] in H. inversion H as [|? ? Hnin Hnd]; subst.
+    destruct (bytes_eqb k k') eqn:E; cbn [map fst].
+    + apply bytes_eqb_eq in E. subst k'. constructor; assumption.
+    + constructor; [|apply IH; exact Hnd]. intros Hin. destruct (In_aset_keys _ _ _ _ Hin) as [->|H1].
+      * rewrite bytes_eqb_refl in E. discriminate.
+      * contradiction.
+Qed.
+
+Lemma prepare_msink c gt gm pg sym idx z0 m s0 m2 s pg3 z3 R m3 ms r n cs :
+  p_sizer pg = Some z0 -> p_menu pg = Some m -> m_sink m = true ->
+  page_split c (p_map pg) = Ok (p_map pg, [], []) ->
+  menu_render_st gm (menu_with_pages (menu_with_dispose m)) 0 = (Ok s0, m2) ->
+  page_render_inner gt gm
+    (page_set_sizer
+       (page_set_map
+          (page_set_sizer (page_set_extra (page_set_menu pg (Some m2)) menu_sink_extra)
+             (Some (sizer_set_sink z0 menu_sink_key)))
+          (aset menu_sink_key [] (p_map pg)))
+       (Some (sizer_add_cursor (sizer_set_sink z0 menu_sink_key) 0)))
+    sym (aset menu_sink_key [] (p_map pg)) 0 = (Ok s, pg3) ->
+  p_sizer pg3 = Some z3 -> sizer_check z3 s = (R, true) ->
+  p_menu pg3 = Some m3 -> menu_sizes m3 = Ok ms ->
+  join_sink (split_on nl s0) R ms (z_crsrs z3) = (Ok (r, n), cs) ->
+  exists pg6,
+    page_prepare c gt gm pg sym idx = (Ok (aset menu_sink_key r (aset menu_sink_key [] (p_map pg))), pg6)
+    /\ p_sizer pg6 = Some (sizer_set_crsrs z3 cs)
+    /\ p_menu pg6 = Some (menu_with_page_count m3 n)
+    /\ p_err pg6 = p_err pg3 /\ p_extra pg6 = p_extra pg3.
+Proof.
+  intros Hz0 Hm Hsink Hsplit Hr0 Hpre Hz3 Hchk Hm3 Hms Hj.
+  unfold page_prepare. rewrite Hz0, Hsplit. cbv zeta. rewrite Hm, Hsink. cbn [negb].
+  rewrite Hr0. unfold prep_write.
+  cbn [p_sizer page_set_extra page_set_menu page_set_sizer page_set_map option_map]. rewrite Hz0. cbn [option_map].
+  rewrite Hpre, Hz3, Hchk. cbn [negb]. rewrite Hm3, Hms, Hj.
+  cbn [p_menu page_set_sizer page_set_map]. rewrite Hm3. cbn [option_map].
+  eexists. split; [reflexivity|]. repeat split.
+Qed.
+
+Lemma page_offered_renders_msink c gt gm pg sym z0 m src a b xa xb lines :
+  (* the page as the VM builds it after MSINK: fresh cursors, the menu is the sink *)
+  p_sizer pg = Some z0 -> z_crsrs z0 = [] -> 0 < z_out z0 -> z_out z0 < 4294967296 ->
+  p_menu pg = Some m -> m_sink m = true -> m_page_count m <= 1 ->
+  b_next_avail (m_browse m) = true -> b_prev_avail (m_browse m) = true ->
+  (* guard excluding K-C02-labelsize *)
+  m_sep m = default_sep ->
+  title_for gm m (b_next_title (m_browse m)) = Ok (b_next_title (m_browse m)) ->
+  title_for gm m (b_prev_title (m_browse m)) = Ok (b_prev_title (m_browse m)) ->
+  (* no symbol sink; the menu items resolve to `lines`, which are the sink rows *)
+  NoDup (map fst (p_map pg)) -> no_sink c (p_map pg) ->
+  menu_lines (title_for gm m) (m_sep m) (m_items m) = Some lines -> lines <> [] ->
+  (* the template (extra "\n{{._menu}}" appended by prepare) mentions _menu exactly once and the
+     text around it instantiates to xa / xb with the page's mapped values *)
+  (forall x, is_panic (gt x) = false) ->
+  gt sym = Ok src ->
+  tpl_parse (tpl_source (p_err pg) menu_sink_extra src) = Some (a ++ TVar menu_sink_key :: b) ->
+  (forall w, (forall nm, nm <> menu_sink_key -> alookup nm w = alookup nm (p_map pg)) ->
+     tpl_exec a w = Ok xa /\ tpl_exec b w = Ok xb) ->
+  len xa + len xb <= z_out z0 ->
+  rows_ok lines = true -> rows_size lines < 4294967296 -> len lines < 65536 ->
+  budget_ok lines (z_out z0 - (len xa + len xb)) (browse_sizes (m_browse m)) = true ->
+  exists n r cs (pages : list (list bytes)),
+    join_sink lines (z_out z0 - (len xa + len xb)) (browse_sizes (m_browse m)) [0] = (Ok (r, n), cs)
+    /\ List.concat pages = lines /\ len pages = n /\ 0 < n
+    (* page i: the template text, the WHOLE menu lines of block i, and only the browse lines as menu *)
+    /\ (forall i p, nth_error pages i = Some p ->
+          exists pg', page_render c gt gm pg sym (N.of_nat i)
+            = (Ok ((xa ++ join_with [nl] p ++ xb)
+                   ++ opt_menu (join_with [nl] (browse_lines (m_browse m) default_sep
+                                                  (N.of_nat i + 1 <? n) (0 <? N.of_nat i)))), pg'))
+    /\ (forall i, i < n -> exists out pg', page_render c gt gm pg sym i = (Ok out, pg'))
+    /\ (forall i, n <= i -> exists e, fst (page_render c gt gm pg sym i) = Err e).
+Proof.
+  intros Hz0 Hcrs Hout Hout32 Hm Hsink Hpc Hna Hpa Hsep Hnt Hpt Hnd Hnos Hlines Hlne Hgtp Hgt Hparse Hexab Hpref
+         Hrok Hrsz Hrlen Hbud.
+  assert (Hsepne : m_sep m <> []) by (rewrite Hsep; discriminate).
+  assert (Hmk : menu_sink_key <> []) by discriminate.
+  (* the menu consumed as sink *)
+  set (m1 := menu_with_pages (menu_with_dispose m)).
+  assert (Hm1 : m_page_count m1 = 1 /\ m_browse m1 = m_browse m /\ m_sep m1 = m_sep m /\ m_items m1 = m_items m
+                /\ m_has_rs m1 = m_has_rs m /\ m_keep m1 = false).
+  { unfold m1, menu_with_pages. cbn [m_page_count menu_with_dispose].
+    destruct (m_page_count m =? 0) eqn:E; cbn; repeat split; revert E Hpc; clia. }
+  destruct Hm1 as [Hpc1 [Hb1 [Hs1 [Hi1 [Hrs1 Hk1]]]]].
+  assert (Htf1 : title_for gm m1 = title_for gm m) by (unfold title_for; rewrite Hrs1; reflexivity).
+  destruct (menu_render_paged_ok gm m1 0 lines) as [m2 Hr0];
+    rewrite ?Hb1, ?Hs1, ?Hi1, ?Htf1, ?Hpc1; try assumption; try reflexivity.
+  rewrite Hb1, Hs1, Hpc1 in Hr0. change (0 + 1 <? 1) with false in Hr0. change (0 <? 0) with false in Hr0.
+  unfold browse_lines in Hr0. cbn [app] in Hr0. rewrite app_nil_r in Hr0.
+  set (s0 := join_with [nl] lines) in *.
+  assert (Hsvs : split_on nl s0 = lines) by (apply split_on_join; assumption).
+  destruct (menu_render_st_static gm m1 0 s0 m2 Hr0) as [[Hb2 [Hs2 [Hk2 [Hrs2 [Hsk2 Hpc2]]]]] _].
+  pose proof (menu_render_st_dispose gm m1 0 s0 m2 Hr0 Hk1) as Hi2.
+  rewrite Hb1 in Hb2. rewrite Hs1 in Hs2. rewrite Hk1 in Hk2. rewrite Hrs1 in Hrs2. rewrite Hpc1 in Hpc2.
+  assert (Htf2 : title_for gm m2 = title_for gm m) by (unfold title_for; rewrite Hrs2; reflexivity).
+  (* the pre-render *)
+  set (nsv := aset menu_sink_key [] (p_map pg)).
+  set (z2 := sizer_add_cursor (sizer_set_sink z0 menu_sink_key) 0).
+  set (pg2 := page_set_sizer
+       (page_set_map
+          (page_set_sizer (page_set_extra (page_set_menu pg (Some m2)) menu_sink_extra)
+             (Some (sizer_set_sink z0 menu_sink_key))) nsv) (Some z2)).
+  assert (Hndn : NoDup (map fst nsv)) by (apply NoDup_aset; exact Hnd).
+  assert (Hoff : forall vals', (forall nm, nm <> menu_sink_key -> alookup nm vals' = alookup nm nsv) ->
+                  tpl_exec a vals' = Ok xa /\ tpl_exec b vals' = Ok xb).
+  { intros w Hw. apply Hexab. intros nm Hne. rewrite (Hw nm Hne). unfold nsv. apply alookup_aset_other. exact Hne. }
+  assert (Hcrs2 : z_crsrs z2 = [0]) by (unfold z2; cbn [z_crsrs sizer_add_cursor sizer_set_sink]; rewrite Hcrs; reflexivity).
+  destruct (final_render_ok gt gm pg2 sym nsv 0 z2 m2 menu_sink_key [] [] src a b xa xb [])
+    as [m3 [Hr3 Hpre]];
+    try reflexivity; try assumption;
+    rewrite ?Hb2, ?Hs2, ?Hi2, ?Htf2, ?Hpc2, ?Hcrs2; try assumption; try reflexivity.
+  { apply alookup_aset_same. }
+  { change (0 + 1 <? 1) with false. change (0 <? 0) with false. cbn. change (z_out z2) with (z_out z0).
+    revert Hpref. clia. }
+  rewrite Hb2, Hpc2 in Hr3, Hpre. change (0 + 1 <? 1) with false in Hr3, Hpre. change (0 <? 0) with false in Hr3, Hpre.
+  unfold browse_lines in Hr3, Hpre. cbn [app join_with] in Hr3, Hpre.
+  change (opt_menu []) with (@nil N) in Hpre. rewrite app_nil_r in Hpre.
+  set (s := xa ++ xb) in *.
+  set (pg3 := page_set_menu pg2 (Some m3)) in *.
+  destruct (menu_render_st_static gm m2 0 [] m3 Hr3) as [[Hb3 [Hs3 [Hk3 [Hrs3 [Hsk3 Hpc3]]]]] _].
+  pose proof (menu_render_st_dispose gm m2 0 [] m3 Hr3 Hk2) as Hi3.
+  rewrite Hb2 in Hb3. rewrite Hs2 in Hs3. rewrite Hrs2 in Hrs3.
+  assert (Hslen : len s = len xa + len xb) by (unfold s; apply len_app).
+  assert (Hchk : sizer_check z2 s = (z_out z0 - len s, true)).
+  { unfold sizer_check. rewrite w32_small by (revert Hslen Hpref Hout32; clia). change (z_out z2) with (z_out z0).
+    destruct (0 <? z_out z0) eqn:E1; [|revert E1; generalize Hout; clia].
+    destruct (z_out z0 <? len s) eqn:E2; [revert E2; generalize Hslen Hpref; clia|reflexivity]. }
+  rewrite Hslen in Hchk.
+  set (R := z_out z0 - (len xa + len xb)) in *.
+  set (ms := browse_sizes (m_browse m)) in *.
+  pose proof Hbud as Hbud'. unfold budget_ok in Hbud'. apply andb_true_iff in Hbud' as [Hbd1 Hbd2].
+  assert (Hms : menu_sizes m3 = Ok ms).
+  { rewrite (menu_sizes_browse m3 m Hb3). apply menu_sizes_closed; try assumption;
+      unfold ms, browse_sizes, ms_next, ms_prev in Hbd1; revert Hbd1 Hbd2; clia. }
+  destruct (join_sink_budget lines R ms Hlne Hrok Hrsz Hrlen Hbud)
+    as [r [n [cs [pages [Hj [Hcat [Hlp Hpages]]]]]]].
+  assert (Hnpos : 0 < n).
+  { destruct pages as [|p0 pages]; [cbn in Hcat; congruence|]. rewrite <- Hlp, len_cons. clia. }
+  pose proof Hj as Hj0. rewrite <- Hcrs2, <- Hsvs in Hj.
+  destruct (prepare_msink c gt gm pg sym 0 z0 m s0 m2 s pg3 z2 R m3 ms r n cs
+              Hz0 Hm Hsink (page_split_nosink c _ Hnos) Hr0 Hpre eq_refl Hchk eq_refl Hms Hj)
+    as [pg6 [Hprep [Hsz6 [Hmn6 [Herr6 Hex6]]]]].
+  assert (Hprep' : forall idx, page_prepare c gt gm pg sym idx = (Ok (aset menu_sink_key r nsv), pg6)) by (intros idx; exact Hprep).
+  assert (Hexact : forall i0 p, nth_error pages i0 = Some p ->
+            exists pg', page_render c gt gm pg sym (N.of_nat i0)
+              = (Ok ((xa ++ join_with [nl] p ++ xb)
+                     ++ opt_menu (join_with [nl] (browse_lines (m_browse m) default_sep
+                                                    (N.of_nat i0 + 1 <? n) (0 <? N.of_nat i0)))), pg')).
+  { intros i0 p Enth. set (i := N.of_nat i0). unfold page_render. rewrite Hprep'.
+    destruct (Hpages _ _ Enth) as [Hsp Hfits]. fold i in Hsp, Hfits.
+    assert (Hi : i < n).
+    { assert (Hsome : nth_error pages i0 <> None) by congruence. apply nth_error_Some in Hsome.
+      unfold len in Hlp. unfold i. revert Hsome Hlp. clia. }
+    set (X := join_with [nl] p) in *.
+    set (vals := aset menu_sink_key r nsv).
+    assert (Hndv : NoDup (map fst vals)) by (apply NoDup_aset; exact Hndn).
+    set (m6 := menu_with_page_count m3 n).
+    assert (Htf6 : title_for gm m6 = title_for gm m) by (unfold title_for, m6; cbn [m_has_rs menu_with_page_count]; rewrite Hrs3; reflexivity).
+    destruct (final_render_ok gt gm pg6 sym vals i (sizer_set_crsrs z2 cs) m6 menu_sink_key r X src a b xa xb [])
+      as [m7 [_ Hfin]];
+      [..|rewrite Hfin; unfold m6; cbn [m_browse m_page_count menu_with_page_count app]; rewrite Hb3; eexists; reflexivity];
+      try reflexivity; try assumption;
+      unfold m6; cbn [m_browse m_page_count m_sep m_items menu_with_page_count z_out z_sink z_crsrs sizer_set_crsrs]; fold m6;
+      rewrite ?Hb3, ?Hs3, ?Hi3, ?Htf6; try assumption; try reflexivity.
+    + apply alookup_aset_same.
+    + rewrite Herr6, Hex6. exact Hparse.
+    + intros w Hw. apply Hoff. intros nm Hne. rewrite (Hw nm Hne). unfold vals. apply alookup_aset_other. exact Hne.
+    + rewrite rows_size_browse_lines. unfold R in Hfits. unfold nav, ms, browse_sizes, ms_next, ms_prev in Hfits.
+      change (z_out z2) with (z_out z0). change (rows_size []) with 0.
+      revert Hfits Hpref. destruct (i + 1 <? n), (0 <? i); clia. }
+  exists n, r, cs, pages. split; [exact Hj0|]. split; [exact Hcat|]. split; [exact Hlp|]. split; [exact Hnpos|].
+  split; [exact Hexact|]. split.
+  - intros i Hi. destruct (nth_error pages (N.to_nat i)) as [p|] eqn:En.
+    + destruct (Hexact _ _ En) as [pg' Hp]. rewrite N2Nat.id in Hp. eexists. exists pg'. exact Hp.
+    + apply nth_error_None in En. unfold len in Hlp. revert En Hlp Hi. clia.
+  - intros i Hi. apply (page_render_past_end c gt gm pg sym i (aset menu_sink_key r nsv) pg6 (menu_with_page_count m3 n));
+      [exact Hgtp|apply Hprep'|exact Hmn6|cbn [m_page_count menu_with_page_count]; exact Hi|revert Hi; generalize Hnpos; clia].
+Qed.
+
+(* ---- a four-page witness for the non-vacuity examples ---------------------------------------------- *)
+Definition wit_rows6 : list bytes := map s2b ["aaaa"; "bbbb"; "cccc"; "dddd"; "eeee"; "ffff"]%string.
+Definition wit_pages_cache : cache :=
+  match cache_add (new_cache 0) (s2b "foo") (join_with [nl] wit_rows6) 0 with Ok c => c | _ => new_cache 0 end.
+Definition wit_pages_page : page :=
+  match page_map wit_pages_cache
+          (page_with_sizer (page_with_menu (page_reset new_page)
+             (menu_put (menu_with_browse (new_menu default_sep)
+                (mkBrowse true (s2b "11") (s2b "next") true (s2b "22") (s2b "back"))) (s2b "1") (s2b "one")))
+             (new_sizer 32))
+          (s2b "foo") with
+  | Ok p => p | _ => new_page end.
